@@ -28,7 +28,7 @@ EXPLANATION = (
     "interpreted on one n-ary node of 16, 32, 128 and 256 operands (five node families) and on a fixed formula in "
     "environments holding 0, 40 and 80 unrelated symbols; cost = interpreted steps + sizes handed to linear-time "
     "primitives (list membership, copies, sorting): the cost per further operand does not grow with the width and the "
-    "cost does not grow with the environment (R5).")
+    "cost does not grow with the environment (R5).  On the real manager `t in manager` and the substitution of a tower for a symbol cost the same at nesting depth 4, 8 and 12 up to the number of nodes, without a call stack that grows with the nesting (part of R4).  SmtLibSolver.add_assertion / is_sat on a maximally shared tower: the cost follows the nodes, not the paths (R6).")
 NOT_DECIDED = ["constants of the linear bound", "the tree printers (not claimed by the property)"]
 
 # (class or module, function) -> reason.  Cycles entirely inside this set are accepted.
